@@ -156,3 +156,41 @@ Theorem C14_example_failing_payouts_are_made_up_across_an_update :
     forall d a, XAcct a -> ledA a (dw_states w1) (wbank w1) d = ledA a (dw_states w2) (wbank w2) d.
 Proof. exact failing_payouts_are_made_up_across_an_update. Qed.
 Print Assumptions C14_example_failing_payouts_are_made_up_across_an_update.
+
+(* failing sweeps: the coins stay in the source account and the next sweep that goes through collects them together with what
+   arrived since. For every list of shares, every state of the credited-amounts machine and all amounts x, y >= 0 (x: what the
+   failed sweep left behind, y: what arrived since, both in 10^-18 units): collected at once, every named share (the burn share
+   among them) is credited what it would have been credited for x and y separately, or one 10^-18 unit more; the primary
+   destination, which takes the remainder, gets correspondingly less — never more than one such unit per share taken out; and
+   the two add up to the same total: nothing is lost, nothing is counted twice *)
+From C4E Require Import Postponed.
+Theorem C14_postponed_sweep_share_within_one_unit :
+  forall x y s, 0 <= x -> 0 <= y -> 0 <= s ->
+  0 <= dec_mul_trunc (x + y) s - (dec_mul_trunc x s + dec_mul_trunc y s) <= 1.
+Proof. exact postponed_share. Qed.
+Print Assumptions C14_postponed_sweep_share_within_one_unit.
+
+Theorem C14_postponed_sweep_primary_within_one_unit_per_share :
+  forall shares x y st1 st2 st3,
+  0 <= x -> 0 <= y -> Forall (fun s => 0 <= s) (taken_shares shares) ->
+  let left i st := snd (a_shares shares i st i) in
+  - Z.of_nat (length (taken_shares shares)) <= left (x + y) st3 - (left x st1 + left y st2) <= 0.
+Proof. exact machine_postponed_primary. Qed.
+Print Assumptions C14_postponed_sweep_primary_within_one_unit_per_share.
+
+Theorem C14_postponed_sweep_loses_nothing :
+  forall shares x y,
+  named_total shares (x + y) + primary_part shares (x + y) =
+  (named_total shares x + primary_part shares x) + (named_total shares y + primary_part shares y).
+Proof. exact postponed_conservation. Qed.
+Print Assumptions C14_postponed_sweep_loses_nothing.
+
+(* non-vacuity: shares 1/2 and 1/7 (18 digits), 10 and 11 coins plus one 10^-18 unit each: collected at once the first share
+   gets one 10^-18 unit more, the second the same, the primary destination one unit less *)
+Example C14_postponed_example :
+  let s1 := 500000000000000000 in let s2 := 142857142857142857 in
+  let x := 10 * P + 1 in let y := 11 * P + 1 in
+  dec_mul_trunc (x + y) s1 - (dec_mul_trunc x s1 + dec_mul_trunc y s1) = 1 /\
+  dec_mul_trunc (x + y) s2 - (dec_mul_trunc x s2 + dec_mul_trunc y s2) = 0 /\
+  primary_part [s1; s2] (x + y) - (primary_part [s1; s2] x + primary_part [s1; s2] y) = -1.
+Proof. vm_compute. repeat split. Qed.
